@@ -9,6 +9,7 @@ package world
 import (
 	"fmt"
 	"math"
+	"reflect"
 	"sort"
 	"strings"
 
@@ -183,4 +184,55 @@ func storageName(sparse bool) string {
 		return "sparse"
 	}
 	return "dense"
+}
+
+// typedCall invokes the concrete-type variant of an operation (MADDM, VADDV,
+// MDOTV, ...: methods of the concrete container types that take operands of the
+// same concrete type) if the receiver has one and the operands have the types
+// it wants.  It reports whether the call was made; a panic inside the method
+// propagates as it is.
+func typedCall(recv interface{}, name string, args ...interface{}) bool {
+	m := reflect.ValueOf(recv).MethodByName(name)
+	if !m.IsValid() || m.Type().NumIn() != len(args) || m.Type().IsVariadic() {
+		return false
+	}
+	in := make([]reflect.Value, len(args))
+	for i, a := range args {
+		v := reflect.ValueOf(a)
+		if !v.IsValid() || !v.Type().AssignableTo(m.Type().In(i)) {
+			return false
+		}
+		in[i] = v
+	}
+	m.Call(in)
+	return true
+}
+
+// nonzero replaces zeros (divisors)
+func nonzero(v []float64) []float64 {
+	r := append([]float64{}, v...)
+	for i := range r {
+		if r[i] == 0 {
+			r[i] = 1
+		}
+	}
+	return r
+}
+
+// reflectBool calls a concrete-type predicate (EQUALS) by name and renders its
+// result; "n/a" if the receiver has no such method for these operand types.
+func reflectBool(recv interface{}, name string, args ...interface{}) string {
+	m := reflect.ValueOf(recv).MethodByName(name)
+	if !m.IsValid() || m.Type().NumIn() != len(args) || m.Type().IsVariadic() || m.Type().NumOut() != 1 {
+		return "n/a"
+	}
+	in := make([]reflect.Value, len(args))
+	for i, a := range args {
+		v := reflect.ValueOf(a)
+		if !v.IsValid() || !v.Type().AssignableTo(m.Type().In(i)) {
+			return "n/a"
+		}
+		in[i] = v
+	}
+	return fmt.Sprint(m.Call(in)[0].Interface())
 }
